@@ -60,6 +60,8 @@ type Store struct {
 	Series []SeriesData
 
 	ClipToHints bool
+	SlowName    string        // series of this metric name have slow iterators
+	SlowDelay   time.Duration
 	YieldSeed   int64 // when non-zero, pseudo-random yields/sleeps in callbacks
 
 	mu        sync.Mutex
@@ -318,14 +320,19 @@ func (s *series) Iterator() chunkenc.Iterator {
 		b := sort.Search(len(smp), func(i int) bool { return smp[i].T > s.hi })
 		smp = smp[a:b]
 	}
-	return &iter{q: s.q, smp: smp, pos: -1}
+	it := &iter{q: s.q, smp: smp, pos: -1}
+	if s.q.s.SlowName != "" && s.d.Labels.Get("__name__") == s.q.s.SlowName {
+		it.slow = s.q.s.SlowDelay
+	}
+	return it
 }
 
 type iter struct {
-	q   *querier
-	smp []Sample
-	pos int
-	err error
+	q    *querier
+	smp  []Sample
+	pos  int
+	err  error
+	slow time.Duration
 }
 
 func (it *iter) Next() chunkenc.ValueType {
@@ -349,6 +356,9 @@ func (it *iter) Next() chunkenc.ValueType {
 func (it *iter) Seek(t int64) chunkenc.ValueType {
 	if it.err != nil {
 		return chunkenc.ValNone
+	}
+	if it.slow > 0 {
+		time.Sleep(it.slow)
 	}
 	if k := it.q.s.hit("it.seek", it.q.ctx); k == "error" {
 		it.err = fmt.Errorf("iterator seek: %w", ErrInjected)
